@@ -464,7 +464,7 @@ class CongClosureHOL:
                     cur_pos = b
                 else:
                     assert b == cur_pos
-                    pt = pt.transitive(pt, eq_pt.symmetric())
+                    pt = pt.transitive(eq_pt.symmetric())
                     cur_pos = a
 
             return pt
